@@ -414,7 +414,7 @@ func vhC07(maxFields, nTypes, maxRules int) {
 }
 
 func vh_C07_models_Q() { vhC07(2, 6, 0) }
-func vh_C07_models_T() { vhC07(2, 11, 1) }
+func vh_C07_models_T() { vhC07(2, 9, 0) }
 
 // C14: a struct tag is free text (`go vet` is the only thing that complains about a malformed one): whatever it
 // holds - a missing closing quote, an empty value, stray quotes - both model emitters end without a crash
